@@ -1,5 +1,5 @@
 (* Properties/C15.v — rejected builder calls have no effect; no dangling ids (C15) *)
-From HpoV Require Import Gen.Consts Model.Base Model.Group Model.Onto Model.Dump Model.Script Run.World Run.Ser Run.C15 Proofs.C15P Proofs.ScriptP Proofs.ClosureP Model.Dump Proofs.WalkP Proofs.WalkAllP Proofs.DistP Proofs.RoundTripP Proofs.AnnotP Proofs.JaxP Proofs.DecodeAnyP Model.Binary Model.Text Model.SubOnt.
+From HpoV Require Import Gen.Consts Model.Base Model.Group Model.Onto Model.Dump Model.Script Run.World Run.Ser Run.C15 Proofs.C15P Proofs.ScriptP Proofs.ClosureP Model.Dump Proofs.WalkP Proofs.WalkAllP Proofs.AllPathsP Proofs.DistP Proofs.RoundTripP Proofs.AnnotP Proofs.JaxP Proofs.DecodeAnyP Model.Binary Model.Text Model.SubOnt.
 
 Theorem C15_referentially_closed : forall d, ref_closed d = true ->
   (forall t, In t (do_terms d) ->
@@ -70,6 +70,10 @@ Theorem C15_binary_ontologies_walk_returns : forall icf input o, decode icf inpu
   exists d, dump_onto o = Ok d.
 Proof. exact decoded_walk_returns. Qed.
 
+(* ... in one statement: on every [constructed] ontology (Proofs/AllPathsP.v) *)
+Theorem C15_every_constructed_ontology_walk_returns : forall icf o, constructed icf o -> exists d, dump_onto o = Ok d.
+Proof. exact constructed_walk_returns. Qed.
+
 Print Assumptions C15_referentially_closed.
 Print Assumptions C15_same_observation.
 Print Assumptions C15_model_failed_add_parent_no_trace.
@@ -80,3 +84,4 @@ Print Assumptions C15_wellformed_ontologies_walk_returns.
 Print Assumptions C15_jax_ontologies_walk_returns.
 Print Assumptions C15_sub_ontologies_walk_returns.
 Print Assumptions C15_binary_ontologies_walk_returns.
+Print Assumptions C15_every_constructed_ontology_walk_returns.
